@@ -16,7 +16,7 @@ HAS = lambda cls, cond='True': 'exists(0, len(result), lambda j: cls_name(result
 X = lambda cls: 'cast("%s", result[j])' % cls
 A = 'session.args'
 Contract(T_, 'URLFiltersSetupTask._build_url_filters', {'cls': TAny(), 'session': TObj('AppSession')}, ret=TList(TObj('BaseURLFilter')), prop='C02',
-    locals={'filters': TList(TObj('BaseURLFilter'))}, shards=14,
+    locals={'filters': TList(TObj('BaseURLFilter'))}, shards=14, split_and=False,
     requires=['%s.tries >= 0' % A, '%s.level >= 0' % A, '%s.page_requisites_level >= 0' % A],
     ensures=[
         ('scheme', 'ite(%s.https_only, %s, %s)' % (A, HAS('HTTPSOnlyFilter'), HAS('SchemeFilter', '%s._allowed == ["http", "https", "ftp"]' % X('SchemeFilter')))),
